@@ -20,6 +20,21 @@ pub struct Item {
     pub dump: String,
 }
 
+/// a term with one literal changed (the first one met): a different condition
+pub fn lit_twin(t: &Term, done: &mut bool) -> Term {
+    if *done { return t.clone(); }
+    match t {
+        Term::S(k, op, v) => { *done = true; Term::S(*k, *op, format!("{v}x")) }
+        Term::V(k, op, v) => { *done = true; Term::V(*k, *op, format!("{}.1", rel_of(v))) }
+        Term::VI(k, n, vs) => { *done = true; let mut vs = vs.clone(); vs.push("9.9.9".into()); Term::VI(*k, *n, vs) }
+        Term::X(n, v) => { *done = true; Term::X(*n, format!("{v}x")) }
+        Term::And(a, b) => { let l = lit_twin(a, done); Term::And(Box::new(l), Box::new(lit_twin(b, done))) }
+        Term::Or(a, b) => { let l = lit_twin(a, done); Term::Or(Box::new(l), Box::new(lit_twin(b, done))) }
+        Term::Not(a) => Term::Not(Box::new(lit_twin(a, done))),
+        other => other.clone(),
+    }
+}
+
 pub fn try_build(out: &mut Out, prop: &str, t: &Term) -> Option<MarkerTree> {
     match catch_unwind(AssertUnwindSafe(|| t.build())) {
         Ok(m) => Some(m),
@@ -593,6 +608,24 @@ pub fn run(out: &mut Out, tier: &str, seed: u64, prop: &str) {
                     }
                 }
             }
+            // comparisons only the typed builder can express (`===`), against point / range conditions on the full version
+            {
+                for k in [2usize, 1] {
+                    for lit in ["3.7", "3.7.0", "3"] {
+                        let x = Term::V(k, 9, lit.to_string());
+                        let mut ys: Vec<Term> = (0..6).map(|op| Term::V(1, op, "3.7.1".to_string())).collect();
+                        ys.extend([Term::V(k, 0, lit.to_string()), Term::V(k, 1, lit.to_string()), Term::V(1, 4, "3.7".to_string()), Term::V(1, 2, "3.8".to_string()), Term::V(2, 1, "3.7".to_string())]);
+                        for y in ys {
+                            for (ta, tb) in [(x.clone(), y.clone()), (Term::and(x.clone(), Term::X(false, "dev".into())), Term::or(y.clone(), Term::S(1, 0, "nt".into())))] {
+                                let (Some(tra), Some(trb)) = (try_build(out, "C04", &ta), try_build(out, "C04", &tb)) else { return };
+                                let (da, db) = (dump(&tra), dump(&trb));
+                                pairs.push((Item { term: ta, tree: tra, dump: da }, Item { term: tb, tree: trb, dump: db }));
+                                out.stat("c04.exact_equal_pairs");
+                            }
+                        }
+                    }
+                }
+            }
             for _ in 0..n_ops {
                 let a = mk(&items[rng.below(items.len())]);
                 // bias towards related operands
@@ -634,6 +667,15 @@ pub fn run(out: &mut Out, tier: &str, seed: u64, prop: &str) {
                     if d1 && ea && eb { out.oracle_fail("C04", "is_disjoint returned true but an environment satisfies both", serde_json::json!({"a": a.term.line(), "b": b.term.line(), "env": e.line()})); }
                     if a.tree.is_false() && ea { out.oracle_fail("C04", "is_false() but an environment satisfies the marker", serde_json::json!({"a": a.term.line(), "env": e.line()})); }
                     if a.tree.is_true() && !ea { out.oracle_fail("C04", "is_true() but an environment falsifies the marker", serde_json::json!({"a": a.term.line(), "env": e.line()})); }
+                    // … and against the meaning of the expressions the markers were built from (read off PEP 508 / PEP 440,
+                    // not off the diagram)
+                    if let (Some(sa), Some(sb)) = (crate::mparse::term_sem(&a.term, e), crate::mparse::term_sem(&b.term, e)) {
+                        out.stat("c04.judged_by_term_meaning");
+                        if d1 && sa && sb { out.oracle_fail("C04", "is_disjoint returned true but an environment satisfies both expressions as written", serde_json::json!({"a": a.term.line(), "b": b.term.line(), "env": e.line()})); }
+                        if cf && sa && sb { out.oracle_fail("C04", "(a and b).is_false() but an environment satisfies both expressions as written", serde_json::json!({"a": a.term.line(), "b": b.term.line(), "env": e.line()})); }
+                        if a.tree.is_false() && sa { out.oracle_fail("C04", "is_false() but an environment satisfies the expression as written", serde_json::json!({"a": a.term.line(), "env": e.line()})); }
+                        if a.tree.is_true() && !sa { out.oracle_fail("C04", "is_true() but an environment falsifies the expression as written", serde_json::json!({"a": a.term.line(), "env": e.line()})); }
+                    }
                 }
             }
         }
@@ -669,7 +711,8 @@ pub fn run(out: &mut Out, tier: &str, seed: u64, prop: &str) {
                 // Ordering::Equal exactly for the same function: a marker against markers that share its root
                 // test (its negation, and its conjunction / disjunction with another marker)
                 {
-                    let variants = [Term::not(t(a)), Term::and(t(a), t(b)), Term::or(t(a), t(b))];
+                    let mut done = false;
+                    let variants = [Term::not(t(a)), Term::and(t(a), t(b)), Term::or(t(a), t(b)), lit_twin(&a.term, &mut done)];
                     for v in &variants {
                         let Some(y) = try_build(out, "C03", v) else { return };
                         out.evaluations += 1;
@@ -1056,6 +1099,19 @@ pub fn run(out: &mut Out, tier: &str, seed: u64, prop: &str) {
                             shapes.push(Term::and(Term::S(key, op, val.into()), Term::S(0, 0, "posix".into())));
                             shapes.push(Term::or(Term::S(key, op, val.into()), Term::X(false, "dev".into())));
                         }
+                    }
+                }
+                // `k < A or k >= B` (and its negation `k >= A and k < B`) for every pair of two-segment bounds around the
+                // `!= A.*` rendering: same major / next minor (the only pair that IS a star inequality), other majors with the
+                // minor + 1 pattern, same major with a gap, three-segment bounds
+                for k in 0..3usize {
+                    for (a, b) in [("3.7", "3.8"), ("2.7", "3.8"), ("2.6", "3.7"), ("3.9", "4.10"), ("3.7", "3.9"), ("3.7", "4.8"), ("3.7", "4.0"), ("3.9", "3.10"), ("3.7.1", "3.7.2"), ("3.7", "3.8.0"), ("0.0", "0.1"), ("0.9", "1.10")] {
+                        let outside = Term::or(Term::V(k, 2, a.into()), Term::V(k, 5, b.into()));
+                        shapes.push(outside.clone());
+                        shapes.push(Term::and(outside.clone(), Term::S(1, 0, "posix".into())));
+                        shapes.push(Term::or(Term::and(outside.clone(), Term::X(false, "dev".into())), Term::S(12, 0, "win32".into())));
+                        shapes.push(Term::not(Term::and(Term::V(k, 5, a.into()), Term::V(k, 2, b.into()))));
+                        shapes.push(Term::and(Term::V(k, 5, a.into()), Term::V(k, 2, b.into())));
                     }
                 }
                 // complementary operators against the SAME literal under DIFFERENT keys / names: they look like a term and
